@@ -6,14 +6,14 @@ CONSTANTS
   EscAware = TRUE
   PA = {123, 125, 91, 93, 34, 92, 49, 44, 58}
   LP = 5
-  LP1 = 5
+  LP1 = 3
   LP2 = 2
   HA = {123, 125, 91, 93, 34, 92, 49, 44, 32}
-  LH = 4
+  LH = 3
   LHR = 0
   Kinds = {"raw", "header", "packet"}
   MaxArrOne = 3
-  MaxArrTwo = 3
+  MaxArrTwo = 2
   MaxArrHostile = 2
 SPECIFICATION GSpec
 CONSTRAINT Emit
